@@ -143,17 +143,15 @@ def convolve_templates(data, temp_bank, ref_bin):
     nbins = len(data)
     ntemps = len(temp_bank)
     convs = np.empty((ntemps, nbins), dtype=data.dtype)
-    data_pad = circular_pad_goodsize(data)
-    data_fft = np.fft.rfft(data_pad)
+    data_fft = np.fft.rfft(data)
     for itemp in range(ntemps):
         temp_kernel = temp_bank[itemp]
-        temp_pad = np.zeros_like(data_pad)
+        temp_pad = np.zeros_like(data)
         temp_pad[: len(temp_kernel)] = temp_kernel
         temp_pad = np.roll(temp_pad, -ref_bin[itemp])
         temp_pad = np.roll(temp_pad[::-1], 1)
         temp_norm = normalize_template(temp_pad)
-        conv = np.fft.irfft(data_fft * np.fft.rfft(temp_norm), len(data_pad))
-        convs[itemp, :] = conv[:nbins]
+        convs[itemp, :] = np.fft.irfft(data_fft * np.fft.rfft(temp_norm), nbins)
     return convs
 ''',
     "form_mspec": '''
@@ -182,6 +180,20 @@ def detrend_1d(arr):
     intercept = (y_sum - slope * x_sum) / m
     trend = slope * np.arange(m, dtype=arr.dtype) + intercept
     return arr - trend.astype(arr.dtype)
+''',
+    "estimate_zscore": '''
+def estimate_zscore(data, loc_method="median", scale_method="mad", axis=0):
+    data = np.asanyarray(data, dtype=np.float32)
+    if data.size == 0:
+        raise ValueError("empty")
+    loc = np.zeros(1, dtype=data.dtype) if loc_method == "norm" else estimate_loc(data, loc_method, axis, keepdims=True)
+    scale = np.ones(1, dtype=data.dtype) if scale_method == "norm" else estimate_scale(data, scale_method, axis, keepdims=True)
+    zero_scales = np.isclose(scale, 0)
+    if np.any(zero_scales):
+        scale = np.where(zero_scales, 1, scale)
+    zscores = np.subtract(data, loc, dtype=np.float32)
+    np.divide(zscores, scale, out=zscores)
+    return ZScoreResult(data=zscores, loc=np.asarray(loc), scale=np.asarray(scale))
 ''',
     "running_filter": '''
 def running_filter(array, window, method="mean"):
@@ -829,9 +841,13 @@ def _loops_to_comprehensions(stmts: list[ast.stmt]) -> list[ast.stmt]:
             if len(body) > 1 and all(isinstance(b, ast.Assign) and len(b.targets) == 1 and isinstance(b.targets[0], ast.Name) for b in body[:-1]):
                 temps_ = {b.targets[0].id: b.value for b in body[:-1]}
                 body = body[-1:]
-            if len(body) == 1 and isinstance(body[0], ast.AugAssign) and isinstance(body[0].op, ast.Add) and isinstance(body[0].target, ast.Name) \
-                    and body[0].target.id not in temps_:
-                name = body[0].target.id
+            tgt_ = body[0].target if len(body) == 1 and isinstance(body[0], ast.AugAssign) and isinstance(body[0].op, ast.Add) else None
+            loopvars_ = {n.id for n in ast.walk(st.target) if isinstance(n, ast.Name)}
+            # an accumulator cell `acc[k]` whose index does not move with this loop folds like a scalar accumulator
+            cell_ = isinstance(tgt_, ast.Subscript) and isinstance(tgt_.value, ast.Name) and not isinstance(tgt_.slice, ast.Slice) and \
+                not ({n.id for n in ast.walk(tgt_.slice) if isinstance(n, ast.Name)} & (loopvars_ | set(temps_)))
+            if tgt_ is not None and (isinstance(tgt_, ast.Name) or cell_) and (tgt_.id if isinstance(tgt_, ast.Name) else tgt_.value.id) not in temps_:
+                name = tgt_.id if isinstance(tgt_, ast.Name) else tgt_.value.id
                 mentions = sum(1 for b in st.body for n in ast.walk(b) if isinstance(n, ast.Name) and n.id == name)
                 if mentions == 1 and not any(isinstance(n, ast.Name) and n.id == name for n in ast.walk(st.iter)):
                     elt = clone(body[0].value)
@@ -844,7 +860,7 @@ def _loops_to_comprehensions(stmts: list[ast.stmt]) -> list[ast.stmt]:
                         elt = S2().visit(elt)
                     comp = ast.ListComp(elt=elt, generators=[ast.comprehension(
                         target=clone(st.target), iter=clone(st.iter), ifs=[flt] if flt is not None else [], is_async=0)])
-                    new = ast.AugAssign(target=ast.Name(id=name, ctx=ast.Store()), op=ast.Add(),
+                    new = ast.AugAssign(target=ast.Name(id=name, ctx=ast.Store()) if isinstance(tgt_, ast.Name) else clone(tgt_), op=ast.Add(),
                                         value=ast.Call(func=ast.Name(id="sum", ctx=ast.Load()), args=[comp], keywords=[]))
                     out.append(ast.fix_missing_locations(ast.copy_location(new, st)))
                     continue
@@ -970,6 +986,7 @@ def _normalise_loops(stmts: list[ast.stmt]) -> list[ast.stmt]:
 def _straightline_updates(stmts: list[ast.stmt], in_loop: bool) -> list[ast.stmt]:
     """Outside loops `x += e` on a local name is `x = x + e` (a chain of plain definitions that is substituted away)."""
     out = []
+    fresh: set[str] = set()    # names given a plain definition earlier in this very block: their updates are straight-line too
     for st in stmts:
         inner_loop = in_loop or isinstance(st, (ast.For, ast.While))
         for field in ("body", "orelse", "finalbody"):
@@ -979,7 +996,10 @@ def _straightline_updates(stmts: list[ast.stmt], in_loop: bool) -> list[ast.stmt
         if isinstance(st, ast.Try):
             for h in st.handlers:
                 h.body = _straightline_updates(h.body, in_loop)
-        if not in_loop and isinstance(st, ast.AugAssign) and isinstance(st.target, ast.Name) and isinstance(st.op, (ast.Add, ast.Sub, ast.Mult)):
+        if isinstance(st, ast.Assign) and len(st.targets) == 1 and isinstance(st.targets[0], ast.Name):
+            fresh.add(st.targets[0].id)
+        if isinstance(st, ast.AugAssign) and isinstance(st.target, ast.Name) and isinstance(st.op, (ast.Add, ast.Sub, ast.Mult)) \
+                and (not in_loop or st.target.id in fresh):
             new = ast.Assign(targets=[ast.Name(id=st.target.id, ctx=ast.Store())],
                              value=ast.BinOp(left=ast.Name(id=st.target.id, ctx=ast.Load()), op=st.op, right=st.value))
             out.append(ast.fix_missing_locations(ast.copy_location(new, st)))
@@ -1514,6 +1534,28 @@ def compare(fn: FuncInfo, name: str | None = None) -> tuple[str, list[str]]:
     return best
 
 
+_LOG_CALL = __import__("re").compile(r"^(logger|logging|log|_logger|_log|LOGGER)\.(debug|info|warning|warn|error|exception|critical|log)\(")
+
+
+def _extends_call(act_txt: str, ref_txt: str) -> bool:
+    """Both are calls of the same constructor; the actual one has the reference's arguments first and then more."""
+    def parse(t: str):
+        try:
+            e = ast.parse(t.replace("$", "_S_").replace("@", "_AT_"), mode="eval").body
+        except SyntaxError:
+            return None
+        return e if isinstance(e, ast.Call) and isinstance(e.func, ast.Name) and e.func.id[:1].isupper() else None
+    a, r = parse(act_txt), parse(ref_txt)
+    if a is None or r is None or a.func.id != r.func.id:
+        return False
+    if len(a.args) + len(a.keywords) <= len(r.args) + len(r.keywords):
+        return False
+    if [ast.dump(x) for x in a.args[:len(r.args)]] != [ast.dump(x) for x in r.args]:
+        return False
+    akw = {k.arg: ast.dump(k.value) for k in a.keywords}
+    return all(k.arg in akw and akw[k.arg] == ast.dump(k.value) for k in r.keywords)
+
+
 def _compare_with(fn: FuncInfo, name: str, ref: "Signature") -> tuple[str, list[str]]:
     try:
         act = Signature(fn.node, ref.params)
@@ -1533,6 +1575,13 @@ def _compare_with(fn: FuncInfo, name: str, ref: "Signature") -> tuple[str, list[
         a = sorted(set(act.skeleton) - set(ref.skeleton))
         r = sorted(set(ref.skeleton) - set(act.skeleton))
         return "different", [f"loop extents/guards {a} differ from the definition's {r}"]
+    # log messages are outside every property
+    def _is_log(f) -> bool:
+        return f[0] in ("expr", "stmt") and isinstance(f[1], str) and bool(_LOG_CALL.match(f[1]))
+    if any(_is_log(f) for f in act.facts | ref.facts):
+        act.facts = {f for f in act.facts if not _is_log(f)}
+        ref = _copy_sig(ref)
+        ref.facts = {f for f in ref.facts if not _is_log(f)}
     if act.facts == ref.facts:
         return "same", [f"{len(act.facts)} effects equal to the reference definition modulo renaming and polynomial normal form"] + (
             [f"(additional domain guards that only reject invalid input: {tolerated})"] if tolerated else [])
@@ -1552,6 +1601,17 @@ def _compare_with(fn: FuncInfo, name: str, ref: "Signature") -> tuple[str, list[
             keys = sorted(f[1] for f in surplus)
             return "same", [f"{len(ref.facts)} effects equal to the reference definition; additional entries {keys} are stored in a dictionary the "
                             f"definition also builds (nothing in the definition reads them)"]
+    # a returned record that carries additional fields after the definition's
+    lacking = ref.facts - act.facts
+    if surplus and lacking and all(f[0] == "ret" for f in surplus | lacking) and len(surplus) == len(lacking):
+        pairs = []
+        for g in lacking:
+            m = [f for f in surplus if f[2] == g[2] and _extends_call(f[1], g[1])]
+            if len(m) == 1:
+                pairs.append((m[0], g))
+        if len(pairs) == len(lacking) and len({id(p[0]) for p in pairs}) == len(pairs):
+            return "same", [f"{len(ref.facts)} effects equal to the reference definition; the returned record carries additional field(s) after the "
+                            f"definition's ({pairs[0][0][1][:80]})"]
     extra = sorted(map(str, act.facts - ref.facts))
     missing = sorted(map(str, ref.facts - act.facts))
     return "different", [f"kernel has: {e}" for e in extra[:4]] + [f"definition needs: {m}" for m in missing[:4]]
